@@ -7,6 +7,7 @@ import Mrpro.Model.Functional
 import Mrpro.Model.PowerIter
 import Mrpro.Model.Signal
 import Mrpro.Model.Resample
+import Mrpro.Model.Rotation
 open Lean M M.Proto
 
 def getTrajComp (j : Json) (k : String) : Except String TrajComp := do
@@ -132,6 +133,37 @@ def signalFn (fn : String) (a : Array Float) : Except String Float :=
   | "molli_dc" => pure (molli_dc (g 0) (g 1) (g 2) (g 3))
   | "molli_dt1" => pure (molli_dt1 (g 0) (g 1) (g 2) (g 3))
   | _ => throw s!"signal fn {fn}"
+
+def qOf (l : List Float) : Q Float := ⟨l.getD 0 0, l.getD 1 0, l.getD 2 0, l.getD 3 0⟩
+def qList (q : Q Float) : List Float := [q.a, q.b, q.c, q.w]
+def m3Of (l : List Float) : Mat3 Float := ⟨l.getD 0 0, l.getD 1 0, l.getD 2 0, l.getD 3 0, l.getD 4 0, l.getD 5 0, l.getD 6 0, l.getD 7 0, l.getD 8 0⟩
+def m3List (m : Mat3 Float) : List Float := [m.m00, m.m01, m.m02, m.m10, m.m11, m.m12, m.m20, m.m21, m.m22]
+instance : OfNat Float 1 := ⟨1.0⟩
+
+def rotFn (j : Json) : Except String (List Float) := do
+  let fn ← getStr j "fn"
+  match fn with
+  | "mul" => pure (qList (Q.mul (qOf (← getFloats j "p")) (qOf (← getFloats j "q"))))
+  | "conj" => pure (qList (qOf (← getFloats j "q")).conj)
+  | "normalize" => pure (qList (F.normalize (qOf (← getFloats j "q"))))
+  | "toMat" =>
+      let r : Rot Float := ⟨qOf (← getFloats j "q"), ← getBool j "improper"⟩
+      pure (m3List r.toMat)
+  | "apply" =>
+      let r : Rot Float := ⟨qOf (← getFloats j "q"), ← getBool j "improper"⟩
+      let v := ← getFloats j "v"
+      let vv : V3 Float := ⟨v.getD 0 0, v.getD 1 0, v.getD 2 0⟩
+      let o := if ← getBool j "inverse" then r.applyInv vv else r.apply vv
+      pure [o.x0, o.x1, o.x2]
+  | "canonical" =>
+      let ix ← getNats j "xyz_index"
+      pure (qList (F.canonical (ix.getD 0 0) (ix.getD 1 0) (ix.getD 2 0) (qOf (← getFloats j "q"))))
+  | "fromEuler" => pure (qList (F.fromEuler (← getNats j "axes") (← getFloats j "angles") (← getBool j "intrinsic")))
+  | "toEuler" => pure (F.toEuler (qOf (← getFloats j "q")) (← getNats j "axes") (← getBool j "extrinsic"))
+  | "matrixToQuat" => pure (qList (F.matrixToQuat (m3Of (← getFloats j "m"))))
+  | "fromRotvec" => let v := ← getFloats j "v"; pure (qList (F.fromRotvec ⟨v.getD 0 0, v.getD 1 0, v.getD 2 0⟩))
+  | "toRotvec" => let o := F.toRotvec (qOf (← getFloats j "q")); pure [o.x0, o.x1, o.x2]
+  | _ => throw s!"rot fn {fn}"
 
 /-- one structural linear operator (forward or adjoint code path) on exact complex data -/
 def linop (j : Json) (x : Tensor CRat) : Except String (Except ErrKind (Tensor CRat)) := do
@@ -286,6 +318,10 @@ def handle (j : Json) : Except String Json := do
         | some c => pure (interpND align nearest shape (fun i => img.getD i 0) c)
         | none => throw "point")
       pure (Json.mkObj [("out", ratsJson outs)])
+  | "rot" => pure (Json.mkObj [("out", floatsJson (← rotFn j))])
+  | "pow_flag" =>
+      let n ← getInt j "n"; let b ← getBool j "improper"
+      pure (Json.mkObj [("flag", Json.bool (powFlag n b)), ("xor", Json.bool (xorN n.natAbs b))])
   | "norm_dims" =>
       let ndim ← getNat j "ndim"; let dims ← getInts j "dims"
       pure (match dims.mapM (normIndex ndim) with
